@@ -162,10 +162,17 @@ def run(chk):
         r = common.rng("C06", "co", k)
         g = S.thin_bar_scenario(r) if k % 2 else S.lattice_scenario(r)
         jobs.append(("coincidence", k, g, 0.1, {"seed": [chk.seed, k], "variant": "lattice"}))
+    for k in range(8 if quick else 120):
+        r = common.rng("C06", "sg", k)
+        jobs.append(("same-gradient", k, S.lattice_scenario(r, same_gradient=True), 0.1, {"seed": [chk.seed, k], "variant": "lattice"}))
     for n, (kind, k, glyphs, tol, info) in enumerate(jobs):
         fmt = FORMATS[n % 3] if quick else None
         for f in ([fmt] if fmt else FORMATS):
             variant = CC.VARIANTS[n % len(CC.VARIANTS)] if n % 4 == 0 else None
+            if kind == "same-gradient":
+                variant = S.LATTICE_CONFIG
+                if fmt:
+                    f = ["picosvg", "glyf_colr_1"][k % 2]
             if kind == "coincidence":
                 variant = [S.LATTICE_CONFIG, {"upem": 2048, "ascender": 1900, "descender": -500, "width": 0}, {}][k % 3]
                 if fmt and k % 2:
